@@ -1,3 +1,5 @@
+import ZCV.Lemmas.ElabExpandGlobal
+import ZCV.Lemmas.ElabExpandEx
 import ZCV.Lemmas.ElabRulesComps
 /-!
 # C11 — schema composition features mean the same as their written-out expansion
@@ -281,5 +283,16 @@ theorem C11_import_cycle_loader (env : Env) (n : Nat) (src : Str) (es1 es2 : ES)
     refine ⟨h1, fun q a c ho => ?_⟩
     obtain ⟨s0, s1, g1, g2, _⟩ := h2 q a c ho
     exact ⟨s0, s1, g1, g2⟩
+
+
+/-- **A section type that extends another equals the type written out** (`Spec/Expand.lean`: the base's keys and sections first,
+    key type and datatype inherited unless given, `implements` not inherited): loading the document and loading its written-out
+    form give the SAME result — the same schema object or the same error — for every environment, chains of any length.
+    PARTIAL: for documents satisfying `expandableDoc` (decidable): no `<import>` directly under `<schema>`, no `prefix` on a
+    section type, every `extends` names an earlier section type of the same document, and a derived type does not override
+    `keytype`.  The last condition cannot be dropped: `C11_extends_counterexample` (the listed finding C11-inherited-fixed-name). -/
+theorem C11_extends_partial (env : Elab.Env) (fuel : Nat) (t : Elab.Node) (hx : Elab.expandableDoc t = true) :
+    Elab.elabSchema env fuel t = Elab.elabSchema env fuel (Elab.expandExtends t) :=
+  Elab.C11_extends_partial env fuel t hx
 
 end ZCV.Props.C11
